@@ -63,7 +63,9 @@ def long_double_slices(chk, w, names, only=None):
             rec.narrow = []
             ex.nonsimple = []
             ex.fp_log = []
-            ex.snap_mode = 'lenient'
+            ex.snap_mode = 'lenient-sym'
+            ex.dimg = {}
+            tm_snap_cache_clear()
             w.models.narrow_hook = narrow_hook
             try:
                 paths = ex.explore(v.st, lambda e: e.call(fn_, list(args)), 48)
@@ -87,7 +89,12 @@ def long_double_slices(chk, w, names, only=None):
             if not good:
                 continue
             res = merge_paths(good)
-            rp_ = precision_replay(chk, name, api, sg, res, args, v)
+            res_act = None
+            if ex.dimg and isinstance(res, T):
+                # intended formula (what the obligations below are about) and the formula with the constants the binary actually holds
+                res_act = tm.subst([res], dict((k_, b_) for k_, (a_, b_) in ex.dimg.items()))[0]
+                res = tm.subst([res], dict((k_, a_) for k_, (a_, b_) in ex.dimg.items()))[0]
+            rp_ = precision_replay(chk, name, api, sg, res, args, v, res_act)
             # (1) constants
             chk.paths_clean('%s:constants-are-long-double-roundings-of-simple-rationals' % tag, [tm.TRUE] if images else [], key='precision:%s:%s:constants' % (name, meth), family='constants',
                             sample=dict(obligation=tag, double_image_constants=[(c[0][-40:], float(c[2]), str(c[4])) for c in images[:4]]), replay=rp_)
@@ -294,7 +301,12 @@ def sod_precision_replay(chk, api):
     return replay
 
 
-def precision_replay(chk, name, api, sg, res, args, view):
+def tm_snap_cache_clear():
+    import exec as ex_
+    ex_._snap_cache.clear()
+
+
+def precision_replay(chk, name, api, sg, res, args, view, res_act=None):
     """long double result vs the exact value of the same formula at 50 digits: error beyond 2^-56 * M means the long double
     interface is limited to (about) double accuracy"""
     def replay(ob, model):
@@ -308,10 +320,32 @@ def precision_replay(chk, name, api, sg, res, args, view):
         res0 = tm.subst([res], {d: tm.ZERO for d in deltas})[0] if deltas else res
         steps = [('init', 'long double', 'h', name)]
         envs = []
+        allnames = names + [a.p for a in args if a.sort == 'R']
+        cands = []
         for k in range(4):
-            env = pde.rand_env(rng, names + [a.p for a in args if a.sort == 'R'], [])
+            env = pde.rand_env(rng, allnames, [])
             # non-dyadic values so that products/quotients are not exact
-            env = {n_: q + Fraction(1, 3 * (7 + i)) for i, (n_, q) in enumerate(sorted(env.items()))}
+            cands.append({n_: q + Fraction(1, 3 * (7 + i)) for i, (n_, q) in enumerate(sorted(env.items()))})
+        if res_act is not None and res_act is not res0:
+            # double-image constants: parameter sets at which the affected terms weigh most (sampled over six orders of magnitude)
+            act0 = tm.subst([res_act], {d: tm.ZERO for d in deltas})[0] if deltas else res_act
+            scored = []
+            for k in range(250):
+                env = {n_: Fraction(2) ** rng.randint(-10, 10) * Fraction(rng.randint(17, 63), 32) + Fraction(1, 3 * (7 + i)) for i, n_ in enumerate(sorted(allnames))}
+                e = {n_: mp.mpf(q.numerator) / mp.mpf(q.denominator) for n_, q in env.items()}
+                for a in args:
+                    if a.sort != 'R':
+                        e[a.p] = 1
+                try:
+                    va, vb = tm.evalf([res0, act0], e, mp)
+                    M_ = pde.magnitude(res0, e) + abs(va)
+                    if mp.isfinite(va) and mp.isfinite(vb) and M_ > 0:
+                        scored.append((abs(va - vb) / M_, k, env))
+                except Exception:
+                    pass
+            scored.sort(key=lambda x: -x[0])
+            cands += [env for _, _, env in scored[:4]]
+        for k, env in enumerate(cands):
             envs.append(env)
             for n_ in names:
                 steps.append(('set', 'long double', n_, env[n_]))
